@@ -761,14 +761,41 @@ def share_types(rng, case, mode):
                 r[f] = case['rahs'][0][f]
 
 
+def hetero(rng, case, mode):
+    """hardeners that all run, with pairwise different cycle times of long common period and shift amounts
+    that grow with the cycle time: the simulation then seldom repeats a state within its tick budget, and the
+    hardener that needs most cycles to exhaust is not the one that needs most time (no-loop fallback)"""
+    if mode == 'exact':
+        pool = [('1000', '-25'), ('2125', '-25'), ('4250', '-50'), ('5000', '-15'), ('8500', '-12.5'),
+                ('10000', '-15')]
+        shifts = [dy(k * 100, 64) for k in (1, 2, 3, 4, 6, 8, 12, 16)]
+    else:
+        pool = [(str(c), '-15') for c in (1001, 2303, 3701, 4999, 7901, 12101, 17003, 24989)]
+        shifts = [str(k) for k in (1, 2, 3, 5, 8, 12, 20, 30)]
+    picks = sorted(rng.sample(pool, len(case['rahs'])), key=lambda x: int(x[0]))
+    sh = sorted(rng.sample(shifts, len(case['rahs'])), key=fr)
+    if mode != 'exact' and len(case['rahs']) == 2 and rng.random() < 0.7:
+        # the extreme pair: a fast hardener with a small shift and a slow one with a large shift
+        picks = [pool[0], pool[-1]]
+        sh = [rng.choice(shifts[:3]), rng.choice(shifts[4:])]
+    for r, (cyc, heat), x in zip(case['rahs'], picks, sh):
+        r['cycle'], r['heat'], r['shift'] = cyc, heat, x
+        r['state'] = rng.choice(['active', 'active', 'overload'])
+
+
 def gen_setup(rng, mode):
     while True:
         n = rng.choice([1, 1, 1, 2, 2, 3])
+        het = rng.random() < float(os.environ.get("C12_HET", "0.2"))
+        if het:
+            n = rng.choice([2, 2, 3]) if mode == 'exact' else rng.choice([2, 2, 2, 3])
         case = {'mode': mode, 'ship': gen_ship(rng, mode),
                 'pdef': gen_profile(rng, mode),
                 'prah': gen_profile(rng, mode) if rng.random() < 0.3 else None,
                 'rahs': [gen_rah(rng, mode) for _ in range(n)], 'tuners': []}
         share_types(rng, case, mode)
+        if het:
+            hetero(rng, case, mode)
         for _ in range(rng.choice([0, 0, 0, 1, 2])):
             case['tuners'].append(gen_tuner(rng, mode, n))
         case['order'] = initial_order(case)
